@@ -105,6 +105,10 @@ func (e extractor) extract(node ast.Node) {
 			Id:       pomsg.Msgid(node),
 			IdPlural: pomsg.MsgidPlural(node),
 		})
+		// (messages in the {param} content of a {call} inside this message)
+		for _, child := range node.Body.Children() {
+			e.extract(child)
+		}
 	default:
 		if parent, ok := node.(ast.ParentNode); ok {
 			for _, child := range parent.Children() {
